@@ -11,10 +11,10 @@ pub fn prop() -> Prop {
     Prop {
         id: "C20",
         level: "model_checking",
-        rule: "the real jawk binary built from the working tree, spawned with pipes: 12 inputs (clean, noisy, truncated tail, empty) x 4 --on-error policies x 13 configurations (5 valid pipelines, 6 classes of invalid configuration, missing input file, file argument) x stdout in {pipe, pipe whose reader is gone (EPIPE), /dev/full} x row separator with/without newline; all combinations; non-trivial = the run produces output or must fail; distinct by construction",
+        rule: "the real jawk binary built from the working tree, spawned with pipes: 16 inputs (clean, noisy, truncated tail, empty; 3000 rows, one 70 KB row, 1500 diagnostics, a long clean stream with a truncated tail - output beyond every stdout buffer) x 4 --on-error policies x 13 configurations (5 valid pipelines, 6 classes of invalid configuration, missing input file, file argument) x stdout in {pipe, pipe whose reader is gone (EPIPE), /dev/full} x row separator with/without newline; all combinations; non-trivial = the run produces output or must fail; distinct by construction",
         explanation: "every combination is executed as a child process and compared with the in-process run of the same arguments: stdout = exactly the in-process stdout sink, under --on-error=stderr the diagnostics = exactly the in-process stderr sink and none on stdout, exit status 0 iff the in-process Result is Ok and stdout accepted every byte, otherwise non-zero with a non-empty stderr",
         assumptions: a,
-        guards: vec!["exit-nonzero-on-config-error", "exit-nonzero-on-full-stdout", "epipe", "stderr-policy-diagnostics", "unterminated-buffer-flush", "panic-policy-fails", "missing-file"],
+        guards: vec!["output-beyond-every-buffer", "exit-nonzero-on-config-error", "exit-nonzero-on-full-stdout", "epipe", "stderr-policy-diagnostics", "unterminated-buffer-flush", "panic-policy-fails", "missing-file"],
         budget_s: (100, 900),
         single_worker: false,
         run,
@@ -65,7 +65,15 @@ fn run(ctx: &mut Ctx) {
         }
     };
     let d = drive::work_dir();
-    for (ii, input) in INPUTS.iter().enumerate() {
+    // size thresholds: output well beyond any stdout buffer (1 KiB line buffer, 8 KiB block buffer, 64 KiB pipe),
+    // in many small rows, in one long row, and as many diagnostics
+    let mut inputs: Vec<String> = INPUTS.iter().map(|s| s.to_string()).collect();
+    inputs.push((0..3000).map(|i| format!("{{\"a\":{i}}}\n")).collect::<String>());
+    inputs.push(format!("{{\"a\":\"{}\"}}\n[1]\n", "y".repeat(70_000)));
+    inputs.push((0..1500).map(|i| format!("{i} }} x\n")).collect::<String>());
+    inputs.push(format!("{}[1, 2", (0..200).map(|i| format!("{i} ")).collect::<String>()));
+    ctx.guard("output-beyond-every-buffer");
+    for (ii, input) in inputs.iter().enumerate() {
         for policy in POLICIES {
             for (cname, cargs, valid) in configs() {
                 for sep_nl in [true, false] {
